@@ -22,7 +22,9 @@ META = {
             "then prints every operation sequence within the bounds (plus random walks of 30 operations in the thorough "
             "tier) with the demanded result of every operation and the admissible position/end_of_stream values after "
             "it. The driver replays each sequence on real file streams (open/4 with type, eof_action, reposition, alias) "
-            "and compares every result and every stream_property answer.",
+            "and compares every result and every stream_property answer. Text vectors whose payload holds a multi-byte character are "
+            "replayed a second time with a pad of ASCII text in front that puts that character across a multiple of 8192 bytes "
+            "(the pad is consumed first; results as in the vector, positions larger by the pad).",
     "note": "Trusted: TLC, the harness, Python's file I/O as the view of the bytes on disk. Scryer offers no Prolog-level "
             "in-memory streams (only read_term_from_chars/3 and the embedding API's user_input), so the replay is on file "
             "streams only. Where the sources leave freedom (whether the layout character after an end token is consumed; "
@@ -37,7 +39,7 @@ ALIAS = "s1"
 BATCH = 120
 PE = ("stream_property(%s, position(position_and_lines_read(P__,L__))), stream_property(%s, end_of_stream(Eos__))"
       % (ALIAS, ALIAS))
-LOAD = "use_module(library(charsio)), use_module(library(format)), use_module(library(iso_ext))."
+LOAD = "use_module(library(charsio)), use_module(library(format)), use_module(library(iso_ext)), use_module(library(lists))."
 EOFAS = ["error", "eof_code", "reset"]
 
 
@@ -126,7 +128,8 @@ def behaviour_steps(vec, idx, wdir):
     """-> (list of harness steps, path of the file, list mapping harness step -> vector step index or tag)"""
     typ, origin = vec["typ"], vec["origin"]
     eofa = concrete_eofa(vec, idx)
-    init = bytes(vec["init"])
+    pad = vec.get("pad", 0)
+    init = b"x" * pad + bytes(vec["init"])
     if origin == "py":
         path = os.path.join(wdir, "p_%s.dat" % hashlib.sha1(init + typ.encode()).hexdigest()[:16])
         if not os.path.exists(path):
@@ -142,6 +145,10 @@ def behaviour_steps(vec, idx, wdir):
             os.unlink(path)
         steps = [{"q": open_query(path, "write" if origin == "pl" else "append", typ, eofa, False), "max": 2}]
     tags = ["open"]
+    if pad:
+        # the padded family: the payload is preceded by pad bytes of ASCII text (no newline), consumed before the first operation
+        steps.append({"q": "catch(findall(N0__, (get_n_chars(%s, %d, R0__), length(R0__, N0__)), [N__]), error(E__,_), true), %s." % (ALIAS, pad, PE), "max": 2})
+        tags.append("pad")
     for i, st in enumerate(vec["steps"]):
         if st["op"] == "reopen":
             steps.append({"q": "close(%s)." % ALIAS, "max": 2})
@@ -225,7 +232,8 @@ def check_behaviour(rep, vec, idx, res, tags, stats):
     typ, origin, fam = vec["typ"], vec["origin"], vec["fam"]
     eofa = concrete_eofa(vec, idx)
     base = {"vector": vec, "index": idx, "eofa": eofa}
-    ident = "typ=%s origin=%s init=%s" % (typ, origin, bytes(vec["init"]).hex() or "-")
+    pad = vec.get("pad", 0)
+    ident = "typ=%s origin=%s init=%s%s" % (typ, origin, bytes(vec["init"]).hex() or "-", " pad=%d" % pad if pad else "")
     lines_ok = True
     prev = {"pos": 0, "lines": 0, "eos": "at" if not vec["init"] else "not"}
     got_prev_lines = 0
@@ -240,6 +248,12 @@ def check_behaviour(rep, vec, idx, res, tags, stats):
             rep.violation("unexpected-answer at=%s ops=%s %s got=%s" % (tag, ",".join(opseq), ident, b[1]),
                           dict(base, at=str(tag), got=b[1]))
             return True
+        if tag == "pad":
+            ok_pad = "E__" not in b and b.get("N__", (None, None))[1] == pad and b.get("P__", (None, None))[1] == pad
+            if not ok_pad:
+                rep.violation("pad-read pad=%d %s got=%s" % (pad, ident, str({k: b[k] for k in b if k in ("N__", "P__", "E__", "Eos__")})), dict(base, at="pad"))
+                return True
+            continue
         if tag in ("open", "close", "end") or tag[0] == "reopen":
             if "E__" in b:
                 rep.violation("open-failed at=%s %s got=%s" % (tag, ident, terms.show(b["E__"])), dict(base, at=str(tag)))
@@ -265,7 +279,7 @@ def check_behaviour(rep, vec, idx, res, tags, stats):
             continue
         # observables after the operation
         try:
-            gp, gl, ge = b["P__"][1], b["L__"][1], b["Eos__"][1]
+            gp, gl, ge = b["P__"][1] - pad, b["L__"][1], b["Eos__"][1]
         except Exception:
             rep.violation("no-position op=%s %s" % (op, ident), dict(base, step=tag[1], ops=opseq[:]))
             return True
@@ -324,7 +338,37 @@ def run(tier):
                     vecs.append(v)
     if not vecs:
         raise common.ToolError("no vectors generated")
+    vecs += padded(vecs, 300 if tier == "quick" else 3000)
     return replay_vectors(rep, vecs)
+
+
+REFILL = 8192       # the reader takes its input in blocks of this many bytes (an implementation constant: only used to aim the pads)
+
+
+def padded(vecs, cap):
+    """The padded family: a text file read from the beginning whose payload contains a multi-byte character is also replayed with
+    PAD bytes of ASCII text in front of the payload, PAD chosen so that the first multi-byte character lies across a multiple
+    of REFILL bytes; the pad is consumed by one get_n_chars/3 before the first operation. Stream.tla reads the content only from
+    the current position on and counts positions in bytes, so every demanded result is that of the unpadded vector and every
+    position is larger by PAD (not so after a reset to the beginning: eof_action(reset) vectors are left out)."""
+    out = []
+    for i, v in enumerate(vecs):
+        if v["origin"] != "py" or v["typ"] != "text" or concrete_eofa(v, i) == "reset":
+            continue
+        if any(st["op"] == "reopen" for st in v["steps"]):
+            continue
+        init = bytes(v["init"])
+        off = next((k for k, b in enumerate(init) if b >= 0xC0), None)
+        if off is None:
+            continue
+        n = 2 if init[off] < 0xE0 else 3 if init[off] < 0xF0 else 4
+        for back in range(1, n):
+            pv = dict(v)
+            pv["pad"] = REFILL - off - back
+            pv["eofa"] = concrete_eofa(v, i)
+            out.append(pv)
+    step = max(1, len(out) // cap)
+    return out[::step][:cap]
 
 
 def replay_vectors(rep, vecs, keep=False):
